@@ -8,6 +8,10 @@
 (*  ev: {e:"exit", status: master's exit status (-1: still running when    *)
 (*        the window of window_ms closed), elapsed_ms, forks: workers the  *)
 (*        master started in that time}                                     *)
+(*      {e:"death", master_alive, live: workers running 3 s after one of   *)
+(*        them was killed by a signal, zombies: dead children not reaped}: *)
+(*        a worker that boots and later dies is replaced, under whatever   *)
+(*        logging / instrumentation the server was started with            *)
 (* gunicorn's distinct statuses: 3 (worker failed to boot), 4 (application *)
 (* failed to load).                                                        *)
 (***************************************************************************)
@@ -19,7 +23,12 @@ vars == <<tid, l, verdict>>
 T == Traces[tid]
 Distinct == {3, 4}
 V(e) ==
-  IF e.status = -1 THEN "RespawnedForever"
+  IF e.e = "death" THEN
+     (IF ~e.master_alive THEN "MasterDiedWithWorker"
+      ELSE IF e.zombies > 0 THEN "DeadWorkerNotReaped"
+      ELSE IF e.live # T.workers THEN "DeadWorkerNotReplaced"
+      ELSE "ok")
+  ELSE IF e.status = -1 THEN "RespawnedForever"
   ELSE IF e.status \notin Distinct THEN "BootFailureWithoutDistinctStatus"
   \* every configured worker may be started (and fail) once before the master notices; a few more while it halts
   ELSE IF e.forks > 2 * T.workers + 2 THEN "RespawnLoopBeforeHalting"
